@@ -839,6 +839,11 @@ class CSSStyleSheet(cssutils.stylesheets.StyleSheet):
             if rule not in self._cssRules:
                 # doublette or cleaned again, must not get this sheet as parent
                 return
+            # cleaning may have removed rules in front of the new one
+            for i, r in enumerate(self._cssRules):
+                if r is rule:
+                    index = i
+                    break
 
         # @variables
         elif rule.type == rule.VARIABLES_RULE:
